@@ -608,6 +608,48 @@ pub fn generate(rng: &mut Rng, tier: Tier) -> Plan {
                     probes_exact: vec![],
                 };
             }
+            if rng.chance(0.05) {
+                // knot vectors the usual recipes never give: an interior knot repeated more
+                // often than the order, or fewer than 2k knots (fewer coefficients than the
+                // order) - born with their coefficients, never solved
+                let k = rng.usize_in(2, 5);
+                let a = awkward(rng, 0.1, 50.0, true);
+                let mut t: Vec<f64> = Vec::new();
+                if rng.chance(0.5) {
+                    t.extend(std::iter::repeat(a).take(k));
+                    let mid = a + awkward(rng, 0.05, 5.0, false);
+                    t.extend(std::iter::repeat(mid).take(k + rng.usize_in(1, 2)));
+                    let end = mid + awkward(rng, 0.05, 5.0, false);
+                    t.extend(std::iter::repeat(end).take(k));
+                } else {
+                    let len = rng.usize_in(k + 1, 2 * k - 1);
+                    let mut x = a;
+                    for i in 0..len {
+                        if i > 0 && rng.chance(0.6) {
+                            x += awkward(rng, 0.05, 5.0, false);
+                        }
+                        t.push(x);
+                    }
+                }
+                let mut spec = SplineSpec {
+                    kind: rng.below(3) as u8,
+                    k,
+                    t: t.into_iter().map(Fx::new).collect(),
+                    preset: None,
+                    preset_share: false,
+                };
+                if rng.chance(0.8) {
+                    spec.preset = Some(gen_preset(rng, &spec));
+                }
+                let mut ops: Vec<Op> = Vec::new();
+                insert_restarts(rng, &mut ops, false);
+                return Plan {
+                    obj: ObjSpec::Spline { spec, xs: vec![] },
+                    ops,
+                    probes: vec![],
+                    probes_exact: vec![],
+                };
+            }
             let mut spec = gen_spline(rng);
             if rng.chance(0.03) {
                 // a spline without any B-spline (as many knots as the order), born with its
